@@ -9,7 +9,11 @@ def _post(R, lines, diffs):
             "refuse csrf 403 expired", "refuse cors 200", "refuse gate 405", "refuse gate 403 disabled"]
     seen = {}
     paths = set()
-    for op, impl in lines:
+    # measured on the EXPECTED outcome (what the generator aims at), not on what a possibly broken
+    # implementation answered
+    expected = {i: model for (i, op, impl, model, v) in diffs}
+    for i, (op, impl) in enumerate(lines):
+        impl = expected.get(i, impl)
         for n in need:
             if impl.startswith(n):
                 seen[n] = seen.get(n, 0) + 1
@@ -18,7 +22,7 @@ def _post(R, lines, diffs):
             paths.add(m.group(1))
     if len(lines) > 1000:   # not for single replays
         missing = [n for n in need if seen.get(n, 0) < 5]
-        if missing or seen.get("reach", 0) * 10 < len(lines):
+        if missing or seen.get("reach", 0) * 30 < len(lines):
             raise RuntimeError("broken harness: outcome classes not exercised: %s (reach=%d of %d)" % (missing, seen.get("reach", 0), len(lines)))
         here = os.path.dirname(os.path.dirname(os.path.abspath(__file__)))
         table = json.load(open(os.path.join(here, "lean/Sky/Gen/routes.json")))
